@@ -340,6 +340,19 @@ def run_harness(sub, lines, env=None, exe=None, chunk=None, timeout=240, isolate
         for part in ex.map(work, jobs):
             for i, o in part:
                 res[i] = o
+    # a call that exceeded the watchdog is run again on its own with a ten times longer limit: on a loaded machine a slow call
+    # must not be reported as a hang.  Three cases that hang again settle it (a genuine hang repeats); at most 40 are retried.
+    hung = [i for i, o in enumerate(res) if o is not None and o.startswith(("HANG", "TIMEOUT"))]
+    again = 0
+    env2 = dict(env, VERIF_WATCHDOG_X="10")
+    for i in hung[:40]:
+        if again >= 3:
+            break
+        rc, out, err = _run_chunk((exe, sub, [lines[i]], env2, max(timeout, 120)))
+        if out and not out[0].startswith(("HANG", "TIMEOUT")) and rc in (0, 3):
+            res[i] = out[0]
+        else:
+            again += 1
     return res
 
 
